@@ -123,6 +123,7 @@ func cmdCheck(args []string) int {
 	keep := fs.Bool("keep", false, "keep SMT files")
 	verbose := fs.Bool("v", false, "verbose")
 	noEvidence := fs.Bool("no-evidence", false, "do not write the evidence file")
+	vacuity := fs.Bool("vacuity", false, "also check that the path condition of every discharged obligation is satisfiable (default in the thorough tier)")
 	fs.Parse(args)
 	t0 := time.Now()
 	seed := 0
@@ -297,6 +298,32 @@ func cmdCheck(args []string) int {
 	solveAll(obls, workDir, sec, seed, 10)
 	tSolve := time.Since(tSolve0)
 
+	// vacuity: a proof under an unsatisfiable path condition proves nothing
+	var vacuous []string
+	if *vacuity || *tier == "thorough" || *tier == "quick" {
+		var covers []*Obligation
+		seen := map[string]bool{}
+		for _, o := range obls {
+			if o.Expect != "unsat" || o.Status != "discharged" || o.Reach.S == "" || o.Reach.S == "true" || o.Context == nil {
+				continue
+			}
+			k := o.Fn + "|" + o.Reach.S
+			if seen[k] {
+				continue
+			}
+			seen[k] = true
+			covers = append(covers, &Obligation{Name: o.Name + "!reach", Kind: "reach", Fn: o.Fn, Pos: o.Pos, Reach: o.Reach, Goal: tFalse, Expect: "sat",
+				Desc: "the path to " + o.Name + " is feasible", Context: o.Context, NAssert: o.NAssert})
+		}
+		solveAll(covers, workDir+"-reach", 3, seed, 10)
+		os.RemoveAll(workDir + "-reach")
+		for _, cvr := range covers {
+			if cvr.Status == "cover-failed" {
+				vacuous = append(vacuous, cvr.Name)
+				fmt.Printf("VACUOUS: %s: the path condition is unsatisfiable under the assumptions (dead code, or an assumption is too strong)\n", strings.TrimSuffix(cvr.Name, "!reach"))
+			}
+		}
+	}
 	known, _ := loadKnownFindings(filepath.Join(*verifDir, "known-findings.txt"))
 	isKnown := func(o *Obligation) *finding {
 		for i := range known {
@@ -388,7 +415,7 @@ func cmdCheck(args []string) int {
 			"coverage": map[string]interface{}{
 				"obligations": nProof, "discharged": nDis + len(knownHit)*0, "checker_cmd": "z3-new -T:N q.smt2 | z3 -T:N q.smt2 | cvc5 --tlimit=N --produce-models q.smt2 (raced per obligation)",
 				"trusted_base": tb, "samples": samples, "functions_under_contract": frs, "obligation_results": reps,
-				"known_findings_reported": knownHit, "undecided": undecided,
+				"known_findings_reported": knownHit, "undecided": undecided, "vacuous_paths": vacuous,
 				"explanation": fmt.Sprintf("%d proof obligations generated from the SSA of %d functions of /repo's working tree against contracts in *_verif.go; %d discharged (unsat), %d listed known findings, %d violations; %d cover (vacuity) queries", nProof, len(frs), nDis, len(knownHit), nViol, len(obls)-nProof),
 				"load_s": tLoad.Seconds(), "solve_s": tSolve.Seconds(), "solver_ms_total": solverMs,
 			},
